@@ -164,8 +164,15 @@ fn impl_db_key(f: &syn::Field) -> Option<proc_macro2::TokenStream> {
     {
         if is_flatten_type(f) {
             let ty = &f.ty;
+            // An empty key list of the flattened type means "all keys"
+            // (it has optional fields): the outer type must then select
+            // all keys as well or the flattened fields would be missing.
             return Some(quote! {
-                keys.extend(<#ty as ::agdb::DbType>::db_keys());
+                let flattened_keys = <#ty as ::agdb::DbType>::db_keys();
+                if flattened_keys.is_empty() {
+                    return ::std::vec::Vec::new();
+                }
+                keys.extend(flattened_keys);
             });
         }
 
